@@ -74,3 +74,8 @@ claim("C18",
       "Generated VCFs (1..3 samples, PEDIGREE or not, GT/AD/DP present, absent or '.', SNVs and indels, SOMATIC/FILTER flags) are read with generated sample/normal selectors, min_depth and skip_somatic; each row must carry the file's start, depth, alt count, alt_freq, zygosity and somatic flag for the pair chosen by the documented precedence, filtered as asked; load_het_snps must keep exactly the germline hets; baf_by_ranges must equal the median of the mirrored het frequencies per range (NaN when none), with TumorBoost and the purity rescale by their formulas, through do_call as well.",
       "Trusted: the harness interpretation of VCF fields; pysam as the parser underneath both; incomplete records only required finite; zero-het fallback and the all-0/0-normal work-around not asserted.",
       "DESIGN.md 5/C18")
+claim("C09",
+      "property-based testing (Hypothesis) with planted truth: synthetic BAMs written with pysam, depths recomputed read by read; serial vs parallel/chunked differential",
+      "Generated coordinate-sorted BAMs (1..3 contigs, 0..5000 reads straddling bin edges and contig ends, soft clips, every filter flag, MAPQ 0..60, optional I/D/N) and BED files (3/4/6/7 columns, abutting, overlapping, nested, zero-width, past-the-end bins, unsorted, > 5000 lines) are run through do_coverage with both algorithms and mapq cut-offs; every row must carry its bin's coordinates and name and depth = aligned bases of counted reads inside the bin / length (log2 or 0/-20); the table for processes in {2,3,16} and chunk sizes {1,2,7,100,5000} must equal the serial one exactly.",
+      "Trusted: pysam/htslib as BAM writer and as the engine under bedcov; the read-by-read model; pileup compared on indel-free BAMs only; OS scheduling not controlled.",
+      "DESIGN.md 5/C09")
